@@ -497,3 +497,70 @@ func renderLog(l []logEntry) string {
 	}
 	return strings.Join(s, "\n")
 }
+
+// TestRegressLastClientStopsWithAncestor: the client of the only probe keeps
+// running after the group above it is deleted (manager scan returned early
+// when no node of the type was found).
+func TestRegressLastClientStopsWithAncestor(t *testing.T) {
+	in := fix.New(t, fix.Opts{ID: "inst"})
+	defer in.Close()
+	rec := &recorder{running: map[string]int{}, latest: map[string]Probe{}, delays: []time.Duration{0}}
+	mnc, err := in.Connect()
+	if err != nil {
+		t.Fatal(err)
+	}
+	defer mnc.Close()
+	mgr := client.NewManager(mnc, func(_ *nats.Conn, c Probe) client.Client {
+		rec.mu.Lock()
+		defer rec.mu.Unlock()
+		rec.insts++
+		key := c.Parent + ">" + c.ID
+		rec.add("construct", key, rec.insts)
+		return &probeClient{rec: rec, key: key, inst: rec.insts, stop: make(chan struct{})}
+	}, nil)
+	done := make(chan error, 1)
+	go func() { done <- mgr.Run() }()
+	defer func() {
+		mgr.Stop(nil)
+		select {
+		case <-done:
+		case <-time.After(15 * time.Second):
+		}
+	}()
+	w := func(id, parent string, pts data.Points) {
+		t.Helper()
+		if r, err := in.EdgePoints(id, parent, pts); err != nil || r != "" {
+			t.Fatalf("%q %v", r, err)
+		}
+	}
+	now := time.Now()
+	w("g", "inst", data.Points{{Type: data.PointTypeTombstone, Time: now, Origin: "h"}, {Type: data.PointTypeNodeType, Text: data.NodeTypeGroup, Origin: "h"}})
+	w("p", "g", data.Points{{Type: data.PointTypeTombstone, Time: now, Origin: "h"}, {Type: data.PointTypeNodeType, Text: "probe", Origin: "h"}})
+	running := func() int {
+		rec.mu.Lock()
+		defer rec.mu.Unlock()
+		return rec.running["g>p"]
+	}
+	wait := func(want int) bool {
+		deadline := time.Now().Add(15 * time.Second)
+		for time.Now().Before(deadline) {
+			pb, _ := (&data.Points{{Type: data.PointTypeNodeType, Text: "verif"}}).ToPb()
+			in.NC.Publish("up.root.verif", pb)
+			in.NC.Flush()
+			for i := 0; i < 20; i++ {
+				if running() == want {
+					return true
+				}
+				time.Sleep(25 * time.Millisecond)
+			}
+		}
+		return false
+	}
+	if !wait(1) {
+		t.Fatalf("client for g>p did not start")
+	}
+	w("g", "inst", data.Points{{Type: data.PointTypeTombstone, Value: 1, Time: now.Add(time.Second), Origin: "h"}})
+	if !wait(0) {
+		t.Fatalf("the client for g>p keeps running although its group was deleted")
+	}
+}
